@@ -197,6 +197,14 @@ func (s *sim) nextByz(rng *simcore.RNG, roll int) simcore.Op {
 			ids = []string{bidStr(maj)}
 		}
 	}
+	if s.cfg.Bool("oneval") && rs.LockedBlock != nil && rs.LockedBlockParts != nil && op.Int64("h") == rs.Height && rng.Bool(0.35) {
+		// keep feeding quorums for the block the validator is locked on (re-locks in later rounds)
+		// next to quorums for other blocks in earlier rounds: the lock-round bookkeeping decides
+		// which of them may unlock it
+		op["blk"] = bidStr(types.BlockID{Hash: rs.LockedBlock.Hash(), PartSetHeader: rs.LockedBlockParts.Header()})
+		op["t"] = 1
+		return s.finishByzVote(rng, op)
+	}
 	switch k := rng.Intn(12); {
 	case k < 2 || len(ids) == 0 && k < 8:
 		op["blk"] = "nil"
@@ -215,6 +223,11 @@ func (s *sim) nextByz(rng *simcore.RNG, roll int) simcore.Op {
 		hsh := tmhash.Sum([]byte(fmt.Sprint("unseen", rng.Intn(1000))))
 		op["blk"] = fmt.Sprintf("%x/1/%x", hsh, hsh)
 	}
+	return s.finishByzVote(rng, op)
+}
+
+// finishByzVote draws the recipients and the optional signature defect of a Byzantine vote.
+func (s *sim) finishByzVote(rng *simcore.RNG, op simcore.Op) simcore.Op {
 	if rng.Bool(0.6) && len(s.nodes) > 1 {
 		var t []int
 		for i := range s.nodes {
